@@ -107,11 +107,14 @@ PROPS = {
     },
     "C01": {
         "props_file": "Props/C01.v",
-        "run_files": ["Run/CaseConn.v"],
+        "run_files": ["Run/CaseConn.v", "Run/CaseC12.v"],
         "imports": ["Lib.Bytes", "Codec.Desc", "Conn.Types", "Conn.Prog", "Conn.Sem1", "Run.CaseConn"],
         "case_type": "conn_case",
         "checkers": {"BASE": "check_c01", "C01": "check_c01", "C02": "check_c01", "C10": "check_c01", "C03": "check_c01"},
-        "harness": [{"bin": "conn", "env": {"VERIF_FAMILIES": "BASE,C01,C02,C10,C03"}}],
+        "harness": [{"bin": "conn", "env": {"VERIF_FAMILIES": "BASE,C01,C02,C10,C03"}},
+                    # the question the authentication service is asked: the real MojangAdapter's request, for hostile names
+                    {"bin": "mojang", "crate": "harness-net", "case_type": "c12case", "imports": ["Lib.Bytes", "Run.CaseC12"],
+                     "checkers": {"REQ": "check_c12"}, "shard": 50}],
         "shard": 40,
         "quick_scale": 1, "thorough_scale": 4, "search_factor": 4,
         "ties": ["conn binary: real Connection::listen on a scripted transport/client/adapters in a paused runtime vs Conn.Sem1.run1 (sends, calls, outcome, virtual ms)",
